@@ -79,3 +79,39 @@ def tabulate(ctx, construct, term, domain, env_of, pred, where, what):
             return ctx.bad(construct, '%s is wrong at %s: value %s' % (what, pt, v), where)
     ctx.note(construct + ' points tabulated', n)
     return ctx.ok(construct, where=where)
+
+
+def prop_funcs(ctx, rel, cname):
+    """{(propname, 'get'|'set'|'del'): FunctionDef} of the @property definitions of a class."""
+    import ast
+    c = ctx.repo.cls(rel, cname)
+    out = {}
+    for n in c.body:
+        if isinstance(n, ast.FunctionDef):
+            for d in n.decorator_list:
+                if isinstance(d, ast.Name) and d.id == 'property':
+                    out[(n.name, 'get')] = n
+                elif isinstance(d, ast.Attribute) and d.attr in ('setter', 'deleter'):
+                    out[(n.name, 'set' if d.attr == 'setter' else 'del')] = n
+    return out
+
+
+def cmp_prop(ctx, rel, cname, pname, kind, spec_src, opts=None):
+    construct = '%s.%s %ster' % (cname, pname, kind)
+    pf = prop_funcs(ctx, rel, cname)
+    f = pf.get((pname, kind))
+    if f is None:
+        return ctx.err(construct, 'anchor vanished: property %s of %s' % (pname, cname), rel)
+    where = '%s:%d %s.%s' % (rel, f.lineno, cname, pname)
+
+    def go():
+        got = ctx.pe(rel, opts=opts).run_function(f).term()
+        return ctx.same_term(construct, got, ctx.spec_term(spec_src, opts=opts), where)
+    return ctx.guard(construct, go, where)
+
+
+def plain_methods(ctx, rel, cname):
+    """names of the methods of a class that are not properties"""
+    import ast
+    c = ctx.repo.cls(rel, cname)
+    return [n.name for n in c.body if isinstance(n, ast.FunctionDef) and not n.decorator_list]
